@@ -9,11 +9,11 @@ var props = []PropDef{
 	{ID: "C04", NAReason: "check under construction"},
 	{ID: "C05", NAReason: "check under construction"},
 	{
-		ID:        "C06",
-		Rules:     []string{"R-lex-consume", "R-lex-whitespace", "R-lex-dispatch", "R-lex-scan"},
-		Technique: "path-sensitive abstract interpretation of the scanner (symbolic cursor offset + rune facts) and table agreement",
-		DesignRef: "DESIGN.md §4 R-lex-consume, R-lexeme-tables; §5 C06",
-		Decides: "for every fixed-lexeme token constructor reachable from NextToken and every entry→return path through it: the runes consumed are exactly the runes of the lexeme returned, the inclusive span starts at the first and ends at the last rune and names the lexer's file, the token kind's display string equals the lexeme, and longest match is enforced (no path returns a prefix of a longer lexeme without excluding the longer one's next rune); the whitespace set is exactly {SP,HT,LF,CR}; every punctuation kind of the token table is produced by some path; the rune classes (digit, octal, hex, letter) denote the sets the lexical grammar defines; in the loop-based scanners (comments, strings, names, numbers, escapes), under every entry context their call sites establish, no rune is dereferenced past the end of input, no scanning loop steps over a position where its own terminator could start, and every rune appended to a token value is consumed exactly once.",
+		ID:          "C06",
+		Rules:       []string{"R-lex-consume", "R-lex-whitespace", "R-lex-dispatch", "R-lex-scan", "R-lex-span-loop", "R-lex-escapes", "R-lex-classes"},
+		Technique:   "path-sensitive abstract interpretation of the scanner (symbolic cursor offset + rune facts) and table agreement",
+		DesignRef:   "DESIGN.md §4 R-lex-consume, R-lexeme-tables; §5 C06",
+		Decides:     "for every fixed-lexeme token constructor reachable from NextToken and every entry→return path through it: the runes consumed are exactly the runes of the lexeme returned, the inclusive span starts at the first and ends at the last rune and names the lexer's file, the token kind's display string equals the lexeme, and longest match is enforced (no path returns a prefix of a longer lexeme without excluding the longer one's next rune); the whitespace set is exactly {SP,HT,LF,CR}; every punctuation kind of the token table is produced by some path; the rune classes (digit, octal, hex, letter) denote the sets the lexical grammar defines; in the loop-based scanners (comments, strings, names, numbers, escapes), under every entry context their call sites establish, no rune is dereferenced past the end of input, no scanning loop steps over a position where its own terminator could start, and every rune appended to a token value is consumed exactly once; the spans of name/number/string tokens cover exactly the consumed runes on every path, number kinds follow the consumed suffix, numeric escapes decode the digit counts and radices of grammar.ebnf, and the scanning-loop classes of names and numbers equal the repetition classes of grammar.ebnf (read with a small EBNF parser).",
 		NotDecided:  "decoded values of number/string literals, digit-separator handling, unicode content, and the behaviour of the loop-based constructors beyond the per-iteration rules.",
 		Assumptions: []string{"Lexer.advance moves the cursor by exactly one rune and is the only cursor mutation (checked: it is the only method that calls Location.Advance; R-lex-consume resolves it by role)."},
 	},
